@@ -141,9 +141,9 @@ theorem l1_inv (sl : List Nat) (ll : List (Option Nat)) (ops : List Op) (hlen : 
     ∃ pre e', pre <+: ops ∧ sabs (run (Cluster.init sl ll) pre) (shard sl.length k) k = some e' ∧
       e'.val = e.val ∧ e'.deadline = e.deadline ∧ e'.gen = e.gen := by
   rw [(run_init_eq sl ll ops hok).1] at h
-  obtain ⟨e', ⟨pre, hp, hs⟩, r⟩ := (cinv_run (fresh_init sl ll) ops hlen).l1 c k e h
+  obtain ⟨e', ⟨pre, hp, hs⟩, r1, r2, r3, _⟩ := (cinv_run (fresh_init sl ll) ops hlen).l1 c k e h
   rw [init_length] at hs
-  refine ⟨pre, e', hp, ?_, r⟩
+  refine ⟨pre, e', hp, ?_, r1, r2, r3⟩
   rw [(run_init_eq sl ll pre (histOk_prefix hp hok)).1]
   exact hs
 
@@ -186,12 +186,20 @@ theorem coherent_fetch_ideal_partial (sl : List Nat) (ll : List (Option Nat)) (o
     (hok : HistOk ops) (hwf : HistWF ops) (c : Nat) (nowC nowS : Time) (k : Key) (tags : Bool) (hk : k.length < 2147483648)
     (v : Val) (ts : List Key) (d : Time) (g : Gen)
     (hit : (step (run (Cluster.init sl ll) ops) (.fetch c nowC nowS k tags)).2 = .hit v ts d g) (mayEvict : Bool) :
-    Spec.answerOk (idealOf ops) nowS k mayEvict false (.hit v ts d g) = true := by
+    Spec.answerOk (idealOf ops) nowS k mayEvict false (.hit v ts d g) = true ∧
+    (KeysNulFree ops → Spec.answerOk (idealOf ops) nowS k mayEvict tags (.hit v ts d g) = true) := by
   obtain ⟨hr, hsm⟩ := run_init_eq sl ll ops hok
   rw [hr] at hit
   rw [C10.step_eq_astep hsm (op := .fetch c nowC nowS k tags) hk] at hit
-  obtain ⟨e, h1, h2, h3, h4⟩ := coherent_fetch_ideal_abs sl ll ops hlen hwf c nowC nowS k tags v ts d g hit
-  simp [Spec.answerOk, h1, h2, h3, h4]
+  obtain ⟨e, h1, h2, h3, h4, h5⟩ := coherent_fetch_ideal_abs sl ll ops hlen hwf c nowC nowS k tags v ts d g hit
+  refine ⟨by simp [Spec.answerOk, h1, h2, h3, h4], fun hkn => ?_⟩
+  cases tags with
+  | false => simp [Spec.answerOk, h1, h2, h3, h4]
+  | true =>
+    have := h5 rfl hkn
+    simp only [Spec.answerOk, h1, h2, h3, h4, beq_self_eq_true, decide_false, Bool.not_false, Bool.and_self, Bool.not_true,
+      Bool.false_or, Bool.true_and, List.all_eq_true, List.contains_iff_mem]
+    exact this
 
 /-! ## the excluded points: the full statements are false of the code (known findings) -/
 
